@@ -930,7 +930,7 @@ class Parser:
             go_again = False
             if self.accept('dot'):
                 go_again = True
-                left = self.method_call(left)
+                left = self.method_call(self.operand(left))
             if self.accept('lbracket'):
                 go_again = True
                 left = self.index_call(left)
